@@ -59,6 +59,22 @@ func VH_C03_hostile() {
 	offending := false
 	var regular []string
 	var sent []string
+	// DEEP=n: the hostile packets come after a well-formed chain of n nested directories and name
+	// entries below it (depth-dependent bookkeeping of the validators is on the path)
+	deep := v.Param("DEEP", 0)
+	if dmin := v.Param("DMIN", 0); dmin > 0 && deep >= dmin {
+		deep = dmin + v.Choose("depth", deep-dmin+1)
+	}
+	chain := ""
+	for i := 0; i < deep; i++ {
+		if i > 0 {
+			chain += "/"
+		}
+		chain += "0"
+		spec.accept(chain, true, false)
+		regular = append(regular, chain)
+		snd.SendMsg(&types.Packet{Type: types.PACKET_STAT, Stat: &types.Stat{Path: chain, Mode: uint32(os.ModeDir) | 0755, Uid: 9, Gid: 9, ModTime: mtimeChoices[0]}})
+	}
 	for i := 0; i < k && !offending; i++ {
 		if v.Bool("is-data") {
 			// content for an id that was not requested (the peer never waits for a REQ)
@@ -70,6 +86,9 @@ func VH_C03_hostile() {
 		hp, hl := hostilePaths, hostileLinks
 		if v.Param("R", 0) != 0 {
 			hp, hl = hostilePathsR, hostileLinksR
+		}
+		if deep > 0 {
+			hp, hl = []string{chain + "/m", chain + "/m/f"}, []string{"", out + "/sub"}
 		}
 		p := hp[v.Choose("path", len(hp))]
 		link := hl[v.Choose("link", len(hl))]
@@ -100,12 +119,15 @@ func VH_C03_hostile() {
 		sent = append(sent, p)
 		snd.SendMsg(&types.Packet{Type: types.PACKET_STAT, Stat: st})
 	}
-	if !offending {
+	// after its offending packet the hostile peer either hangs up or carries on as if nothing had
+	// happened (end-of-stats marker, content for whatever is requested)
+	closed := false
+	if !offending || v.Bool("keeps-serving") {
 		snd.SendMsg(&types.Packet{Type: types.PACKET_STAT})
 	} else {
-		snd.CloseSend() // the hostile peer hangs up after its offending packet
+		snd.CloseSend()
+		closed = true
 	}
-	closed := offending
 	// serve requests until the receiver finishes or fails
 	for fin := false; !fin; {
 		var p types.Packet
